@@ -11,6 +11,7 @@
 #include <parmcb/util.hpp>
 #include <parmcb/sptrees.hpp>
 #include <parmcb/detail/fvs.hpp>
+#include <parmcb/detail/verif.hpp>
 
 #include <boost/graph/connected_components.hpp>
 
@@ -170,6 +171,7 @@ namespace parmcb {
                     }
 
                     // we are a circuit
+                    PARMCB_VERIF_PROBE(iso_partner_lookup);
                     if (x == u) {
                         boost::add_edge(*alli, cycle_to_vertex[std::make_pair(trees_index_map[index_map[v]], e)],
                                 cycles_g);
@@ -189,6 +191,7 @@ namespace parmcb {
                                         cycle_to_vertex[std::make_pair(trees_index_map[index_map[v]],
                                                 tree_x.node(xprime)->pred())], cycles_g);
                             } else {
+                                PARMCB_VERIF_PROBE(iso_bad_class);
                                 boost::put(bad_map, *alli, true);
                             }
                         }
